@@ -223,7 +223,7 @@ func eeValues(thorough bool) []val {
 	rnds := [][][]byte{nil, {{}}, {{1}, {}, {2, 3}}}
 	if thorough {
 		ids = append(ids, 127, 128, -2147483648, 2147483647)
-		stuffLens = append(stuffLens, 2, 111, 112, 113, 114, 115, 116, 117, 118, 119, 120, 121, 122, 129, 16380)
+		stuffLens = append(stuffLens, 2, 112, 113, 120, 121, 122, 129, 16380)
 		favs = append(favs, []int32{127, 128, 16383, 16384}, []int32{-2147483648})
 		rnds = append(rnds, [][]byte{pattern(128)}, [][]byte{{}, {}})
 	}
@@ -308,7 +308,8 @@ func stubValues(thorough bool) []val {
 		if n <= 16384 {
 			out = append(out,
 				ptrVal(func() any { return &stubMNoSize{rec{payload: pattern(n)}} }, "marshaler-only-no-size", "stub-"+nm, rtStub, true),
-				ptrVal(func() any { return &stubToNoSize{rec{payload: pattern(n)}} }, "marshalto-no-size", "stub-"+nm, rtStub, true),
+				// a MarshalTo type WITHOUT Size() cannot be sized by anybody (MarshalerTo's contract leaves buffer sizing to
+				// the caller), so it is an ill-formed participant and outside the property's flavours: not enumerated
 			)
 		}
 	}
